@@ -280,9 +280,24 @@ def shard_by_table(rows, items, chars_of, expr_of, size, shared=False, weight=25
 # pipeline cases (vh gen)
 # --------------------------------------------------------------------------
 
-def props_case(names, extra_schema=None):
-    doc = {"title": "T", "type": "object", "properties": {n: {"type": "string"} for n in names},
-           "required": list(names)}
+# struct-member states: required, optional (Option + default + skip_serializing_if), explicit default
+# (serde default = "fn"), optional array / map (intrinsic default), integer with default, nullable
+MEMBER_STATES = [
+    ({"type": "string"}, True), ({"type": "string"}, False), ({"type": "string", "default": "d"}, False),
+    ({"type": "array", "items": {"type": "string"}}, False),
+    ({"type": "object", "additionalProperties": {"type": "string"}}, False),
+    ({"type": "integer", "default": 5}, False), ({"type": ["string", "null"]}, True), ({"type": "boolean"}, True),
+]
+
+
+def props_case(names, extra_schema=None, states=None):
+    if states is None:
+        doc = {"title": "T", "type": "object", "properties": {n: {"type": "string"} for n in names},
+               "required": list(names)}
+    else:
+        doc = {"title": "T", "type": "object",
+               "properties": {n: MEMBER_STATES[st % len(MEMBER_STATES)][0] for n, st in zip(names, states)},
+               "required": [n for n, st in zip(names, states) if MEMBER_STATES[st % len(MEMBER_STATES)][1]]}
     if extra_schema is not None:
         doc["additionalProperties"] = extra_schema
     return {"settings": {}, "steps": [{"op": "root", "doc": doc}], "code": False}
@@ -332,6 +347,8 @@ def spec_strings(spec):
 
 
 def names_chars(names):
+    if isinstance(names, dict) and "variants" in names:
+        return "".join(n for n, _ in names["variants"]) + "".join(names.get("inner", []))
     return "".join(spec_strings(names)) if isinstance(names, dict) else "".join(names)
 
 
@@ -376,6 +393,132 @@ def source_cases(rnd, tier, small, short, rand):
     out.append({"title": None, "defs": ["Foo", "foo-"], "inline": {"Foo": "bar", "foo-": "bar"}})
     out.append({"title": "T", "defs": ["a b", "a"], "inline": {"a b": "c", "a": "b c"}})
     return out
+
+
+SHAPES = ["unit", "null", "newtype", "struct", "tuple1", "tuple2", "tuple3"]
+VARIANT_NAMES = ["point-1d", "Point1d", "a", "A", "foo bar", "FooBar", "foo_bar", "self", "Self", "type", "1st", "+1", "-1",
+                 "async", "", "x", "$ref", "a'b", "\u00e9t\u00e9", "\u00c9t\u00e9", "stra\u00dfe", "\u03a3\u03a3", "\u4e2d\u6587",
+                 "XMLHttp", "FIELD_NAME11", "kebab-case", "snake_case", "camelCase", "with space", "dotted.name", "slash/name",
+                 "UPPER", "lower", "Mixed_Case-x", "9", "_", "__a", "a__", "r#type", "'static"]
+INNER_PROPS = ["f-g", "h", "Self", "type", "x y", "camelCase", "\u00e9"]
+
+
+def shape_payload(shape, inner):
+    if shape == "null":
+        return {"type": "null"}
+    if shape == "newtype":
+        return {"type": "string"}
+    if shape == "struct":
+        return {"type": "object", "properties": {n: {"type": "string"} for n in inner}, "required": list(inner)}
+    n = int(shape[-1])
+    return {"type": "array", "items": [{"type": "integer"}] * n, "minItems": n, "maxItems": n}
+
+
+def enumx_case(spec):
+    """an enum whose variants have the given (JSON name, shape) under the given tagging"""
+    tg = spec["tagging"]
+    inner = spec.get("inner", ["f-g"])
+    br = []
+    units = [n for n, sh in spec["variants"] if sh == "unit"]
+    if tg == "external":
+        if units:
+            br.append({"type": "string", "enum": units})
+        for n, sh in spec["variants"]:
+            if sh != "unit":
+                br.append({"type": "object", "properties": {n: shape_payload(sh, inner)}, "required": [n],
+                           "additionalProperties": False})
+    elif tg == "adjacent":
+        for n, sh in spec["variants"]:
+            pr = {"tag": {"type": "string", "enum": [n]}}
+            if sh != "unit":
+                pr["content"] = shape_payload(sh, inner)
+            br.append({"type": "object", "properties": pr, "required": list(pr), "additionalProperties": False})
+    else:  # internal: unit and struct shapes only
+        for n, sh in spec["variants"]:
+            pr = {"tag": {"type": "string", "enum": [n]}}
+            if sh == "struct":
+                pr.update({m: {"type": "string"} for m in inner})
+            br.append({"type": "object", "properties": pr, "required": list(pr)})
+    return {"settings": {}, "steps": [{"op": "root", "doc": {"title": "T", "oneOf": br}}], "code": False}
+
+
+def enumx_order(spec):
+    """variant order of the generated enum: for external tagging the string-enum branch (units) comes first"""
+    if spec["tagging"] == "external":
+        return [v for v in spec["variants"] if v[1] == "unit"] + [v for v in spec["variants"] if v[1] != "unit"]
+    return list(spec["variants"])
+
+
+def shape_cases(rnd, tier):
+    out = []
+    for tg in ("external", "adjacent", "internal"):
+        shapes = SHAPES if tg != "internal" else ["unit", "struct"]
+        for sh in shapes:
+            for n in VARIANT_NAMES:
+                fill = [["zz-filler", "unit"], ["yy filler", "newtype" if tg != "internal" else "struct"]]
+                vs = [[n, sh]] + fill
+                rnd.shuffle(vs)
+                out.append({"tagging": tg, "variants": vs, "inner": rnd.sample(INNER_PROPS, rnd.randrange(1, 4))})
+        # every shape at once, names needing and not needing a rename
+        for _ in range(10 if tier == "quick" else 60):
+            ns = rnd.sample(VARIANT_NAMES, len(shapes) + 1)
+            vs = [[n, sh] for n, sh in zip(ns, shapes + [rnd.choice(shapes)])]
+            rnd.shuffle(vs)
+            out.append({"tagging": tg, "variants": vs, "inner": rnd.sample(INNER_PROPS, rnd.randrange(1, 4))})
+    return out
+
+
+def check_enumx(pipe, spec, case, res):
+    """per variant of that exact shape: serde(rename) present iff identifier != JSON name, and equal to it"""
+    pipe.stats["enumx"] = pipe.stats.get("enumx", 0) + 1
+    st = res.get("steps", [{}])[0]
+    items = pipe.common("enumx", spec, case, res)
+    if items is None:
+        return "panic" if st.get("r") == "panic" else "err"
+    t = [i for i in items if i["name"] == "T" and i["kind"] == "enum"]
+    if len(t) != 1:
+        pipe.bad("enum T missing", case, res, items=[i["name"] for i in items])
+        return None
+    attrs = sorted(a[0] for a in t[0]["serde"])
+    want = {"external": [], "adjacent": ["content", "tag"], "internal": ["tag"]}[spec["tagging"]]
+    if attrs != want:
+        # e.g. an internally tagged spec whose struct variants have one common member is read as adjacent tagging;
+        # the variant names still come from the tag values, so the rename obligation applies unchanged
+        pipe.stats["enumx_other_tagging"] = pipe.stats.get("enumx_other_tagging", 0) + 1
+        if "untagged" in attrs:
+            return "n/a"
+    order = enumx_order(spec)
+    vs = t[0]["variants"]
+    pipe.stats["variants_checked"] += len(vs)
+    idents = [v["name"] for v in vs]
+    if len(set(idents)) != len(idents):
+        pipe.bad("duplicate variant identifiers", case, res, idents=idents)
+    wires = [(serde_rename(v["serde"]) if serde_rename(v["serde"]) is not None else v["name"]) for v in vs]
+    if wires != [n for n, _ in order]:
+        pipe.bad("variant wire names differ from the JSON names", case, res, wires=wires, names=[n for n, _ in order],
+                 shapes=[sh for _, sh in order])
+    for v, (n, sh) in zip(vs, order):
+        if serde_rename(v["serde"]) == v["name"]:
+            pipe.bad("rename emitted although identifier equals the JSON name", case, res, variant=v["name"], shape=sh)
+        k = v["fields"]["k"]
+        nf = len(v["fields"].get("fields", []))
+        exp = {"unit": ("unit", 0), "null": ("unit", 0), "newtype": ("tuple", 1), "struct": ("named", None),
+               "tuple1": ("tuple", 1), "tuple2": ("tuple", 2), "tuple3": ("tuple", 3)}[sh]
+        if k != exp[0] or (exp[1] is not None and nf != exp[1]) or \
+                (sh == "tuple1" and not v["fields"]["fields"][0]["ty"].startswith("(")):
+            pipe.stats["enumx_shape_differs"] = pipe.stats.get("enumx_shape_differs", 0) + 1
+        key = "shape:%s/%s/%s" % (spec["tagging"], sh, "rename" if v["name"] != n else "plain")
+        pipe.stats[key] = pipe.stats.get(key, 0) + 1
+        if k == "named":
+            fs = v["fields"]["fields"]
+            fw = sorted((serde_rename(f["serde"]) if serde_rename(f["serde"]) is not None else f["name"]) for f in fs)
+            if fw != sorted(spec.get("inner", ["f-g"])):
+                pipe.bad("wire names of the fields of a struct variant differ from the JSON names", case, res, wires=fw,
+                         names=sorted(spec.get("inner", ["f-g"])))
+            for f in fs:
+                if serde_rename(f["serde"]) == f["name"]:
+                    pipe.bad("rename emitted although identifier equals the JSON name", case, res, field=f["name"])
+    return [(v["name"], serde_rename(v["serde"])) for v in vs]
 
 
 def top_items(res):
@@ -601,9 +744,12 @@ def run(ctx):
         for fn in sorted(os.listdir(cdir)):
             if fn.endswith(".json"):
                 corpus.append(json.load(open(os.path.join(cdir, fn))))
-    corpus_strings = [s for c in corpus for s in (spec_strings(c) if c["kind"] == "batch" else c.get("names", []))]
+    corpus_strings = [s for c in corpus for s in (spec_strings(c) if c["kind"] == "batch" else
+                                                  list(names_chars(c)) if c["kind"] == "enumx" else c.get("names", []))]
     srccases = source_cases(random.Random(ctx.seed * 977 + 3), ctx.tier, small, short, rand)
-    src_strings = dedupe([n for sp in srccases for n in spec_strings(sp)] + ["Renamed9"])
+    shpcases = shape_cases(random.Random(ctx.seed * 389 + 11), ctx.tier)
+    src_strings = dedupe([n for sp in srccases for n in spec_strings(sp)] + ["Renamed9"] + VARIANT_NAMES + INNER_PROPS
+                         + ["zz-filler", "yy filler", "f-g"])
     poscases = position_cases(random.Random(ctx.seed * 131 + 7), ctx.tier)
     corpus_strings = dedupe(corpus_strings + [n for _, names, _ in poscases for n in names])
     g_small = dedupe(corpus_strings + src_strings + kws + ["".join(chr(x) for x in k) for k, _ in kwv] + small + short)
@@ -739,6 +885,8 @@ def run(ctx):
             pcases.append(("defs", c["names"], defs_case(c["names"])))
         elif k == "batch":
             pcases.append(("batch", c, batch_case(c)))
+        elif k == "enumx":
+            pcases.append(("enumx", c, enumx_case(c)))
     for s in singles:
         pcases.append(("props", [s], props_case([s])))
         pcases.append(("enum", [s], enum_case([s])))
@@ -776,6 +924,19 @@ def run(ctx):
         else:
             pcases.append(("defs", names, defs_case(names)))
     ctx.coverage["position_cases"] = len(poscases)
+    # names needing a rename x every variant shape x tagging
+    for sp in shpcases:
+        pcases.append(("enumx", sp, enumx_case(sp)))
+    for corp in corpus:
+        pass
+    # property names x every struct-member state
+    st_names = dedupe(SPECIAL + KEYWORDS + rnd.sample(singles, min(len(singles), 60 if ctx.tier == "quick" else 400)))
+    for i, n in enumerate(st_names):
+        for stt in (range(len(MEMBER_STATES)) if i < 40 or ctx.tier != "quick" else [rnd.randrange(len(MEMBER_STATES))]):
+            pcases.append(("props", [n], props_case([n], states=[stt])))
+        grp = dedupe([n] + rnd.sample(st_names, 3))
+        pcases.append(("props", grp, props_case(grp, states=[rnd.randrange(len(MEMBER_STATES)) for _ in grp])))
+    ctx.coverage["shape_cases"] = len(shpcases)
     # triples and larger groups
     for _ in range(150 if ctx.tier == "quick" else 1500):
         grp = dedupe(rnd.sample(singles, rnd.randrange(3, 7)))
@@ -829,6 +990,14 @@ def run(ctx):
                     res.update({"steps": [{"r": "ok", "id": 0}], "render": {"r": "ok", "scan": {"items": [
                         {"mod": "", "kind": "struct", "name": i, "fields": {"k": "named", "fields": [
                             {"name": "a", "serde": [], "ty": "String", "vis": "pub"}]}} for i in ids + [tid]]}}})
+            if mutate == "tuple1-no-rename" and kind == "enumx":
+                # emulates enums.rs output_variant: the one-element tuple branch emits only #doc (no serde rename)
+                for it in its:
+                    if it["name"] == "T" and it["kind"] == "enum":
+                        for v in it["variants"]:
+                            fl = v["fields"].get("fields", [])
+                            if v["fields"]["k"] == "tuple" and len(fl) == 1 and fl[0]["ty"].startswith("("):
+                                v["serde"] = [a for a in v["serde"] if a[0] != "rename"]
             if mutate == "no-created-check" and kind == "batch" and names.get("inline") == {"Foo": "bar"} \
                     and names.get("title") == "foo bar" and names["defs"] == ["Foo"]:
                 # emulates the created_names check (fix 40183ea) removed: two items `FooBar` are emitted
@@ -864,6 +1033,8 @@ def run(ctx):
             o = pipe.check_enum(names, case, res)
         elif kind == "batch":
             o = check_batch(pipe, names, case, res)
+        elif kind == "enumx":
+            o = check_enumx(pipe, names, case, res)
         else:
             o = pipe.check_defs(names, case, res)
         observed.append(o)
@@ -882,6 +1053,8 @@ def run(ctx):
     try:
         def expr(it):
             kind, names, _ = it
+            if kind == "enumx":
+                return "run_variants cls [%s]" % ";".join(ustr(n) for n, _ in enumx_order(names))
             if kind == "batch":
                 # definitions are converted in BTreeMap (code point) order of their keys, the root last
                 inl = names.get("inline", {})
@@ -921,7 +1094,9 @@ def run(ctx):
                 else:
                     e = ",".join(sorted(show(cps(i)) for i in o))
                 mm = ",".join(sorted(m.split(","))) if m else ""
-            elif kind == "enum":
+            elif kind in ("enum", "enumx"):
+                if o == "n/a":
+                    continue
                 if o is None:
                     e = "rejected"
                 elif isinstance(o, str):
